@@ -11,6 +11,7 @@ def run(tier, seed):
     spec = E.make_spec(PID, PROFILE, 'C06 profile: allocation paths up to depth 5, reservations, ranks, rank '
                        'adjustments, utilisation caps, priority-0 instances, running/pending mix',
                        table_sections=['sched_consts'])
+    spec = E.with_master_stage(spec, PID, tier, seed)
     core.standard_run(PID, tier, seed, spec)
 
 
